@@ -1,8 +1,13 @@
 //! hx_c26: every compression codec is lossless and respects the mini-block chunk limits (C26).
 //! One arm per codec (model correspondence + direct round-trip oracle on the real compressor /
 //! decompressor pair) and an end-to-end arm through the lance-file 2.1 writer/reader.
+mod bitpack;
 mod common;
+mod e2e;
+mod fixed;
+mod general;
 mod rle;
+mod variable;
 
 fn main() {
     let (sub, args) = hxlib::util::Args::parse();
@@ -21,8 +26,41 @@ fn run(args: &hxlib::util::Args) -> i32 {
     let mut rng = hxlib::util::Rng::new(args.seed);
     let only: Option<String> = args.rest.iter().find_map(|a| a.strip_prefix("--only=").map(|s| s.to_string()));
     let want = |name: &str| only.as_deref().map(|o| o.split(',').any(|x| x == name)).unwrap_or(true);
+    // every arm gets its own forked generator so that --only=<arm> replays the same cases
+    let mut forks: Vec<hxlib::util::Rng> = (0..12).map(|_| rng.fork()).collect();
     if want("rle") {
-        rle::run(args, &mut sink, &mut rng.fork());
+        rle::run(args, &mut sink, &mut forks[0]);
+    }
+    if want("bss") {
+        fixed::run_bss(args, &mut sink, &mut forks[1]);
+    }
+    if want("bytepack") {
+        fixed::run_bytepack(args, &mut sink, &mut forks[2]);
+    }
+    if want("value") {
+        fixed::run_value(args, &mut sink, &mut forks[3]);
+    }
+    if want("bitpack") {
+        bitpack::run(args, &mut sink, &mut forks[4]);
+    }
+    if want("binary") {
+        variable::run_binary(args, &mut sink, &mut forks[5]);
+    }
+    if want("dict") {
+        variable::run_dict(args, &mut sink, &mut forks[6]);
+    }
+    if want("packed") {
+        variable::run_packed(args, &mut sink, &mut forks[7]);
+    }
+    if want("general") {
+        general::run(args, &mut sink, &mut forks[8]);
+    }
+    if only.as_deref() == Some("probe") {
+        e2e::probe2(&mut forks[11]);
+        e2e::probe(&mut forks[10]);
+    }
+    if want("e2e") {
+        e2e::run(args, &mut sink, &mut forks[9]);
     }
     sink.finish();
     0
